@@ -215,6 +215,11 @@ def run(ctx):
         from . import mgr_deep
         mgr_deep.report(ctx, rs, mgr_deep.mode_results(), "pysmt/formula.py", 10)
 
+    if ctx.want("R9"):
+        rs = ctx.rule("R9", "real managers: types, widths, free variables, sizes and substitutions in a second environment are the same whether or not the first environment worked on nodes with the same ids before")
+        from . import mgr_deep
+        mgr_deep.report(ctx, rs, mgr_deep.xenv_results(), "pysmt/environment.py", 5)
+
     from . import c14_deep
     c14_deep.run(ctx)
     c14_deep.run_history(ctx)
